@@ -12,7 +12,7 @@ HOSTILE_TEXT = ["it's", '"quoted"', 'back\\slash', '100%', 'a_b', '', 'naïve', 
                 "a'b\"c", '\\', '%', '_', 'null', 'NULL', "';--", 'tab\tx', 'é', 'a' * 40]
 
 
-def gen_table(rng, ncols=None, nrows=None, allow_nul=False):
+def gen_table(rng, ncols=None, nrows=None, allow_nul=False, allow_pk=False):
     if nrows is None:
         nrows = rng.choice([0, 1, 2, 3, 5, 21, 30])
     cols = []
@@ -43,7 +43,21 @@ def gen_table(rng, ncols=None, nrows=None, allow_nul=False):
             col['values'] = [v if v is None or 1000 <= int(v[:4]) <= 9999 else '2000' + v[4:] for v in col['values']]
         col['sqltype'] = sqltype
         cols.append(col)
-    return {'table': 't_%d' % rng.randrange(1000), 'cols': cols, 'nrows': nrows}
+    if len(cols) >= 2 and rng.random() < 0.1:
+        # two columns whose names differ only in the case of a NON-ASCII letter: distinct, legal names in SQLite
+        # (which folds ASCII letters only)
+        a, b = rng.choice([('É', 'é'), ('Ω', 'ω'), ('Ж', 'ж'), ('colÄ', 'colä'), ('ß1', 'ẞ1')])
+        i, j = rng.sample(range(len(cols)), 2)
+        cols[i]['name'], cols[j]['name'] = a, b
+    spec = {'table': 't_%d' % rng.randrange(1000), 'cols': cols, 'nrows': nrows}
+    if allow_pk and rng.random() < 0.25 and 'pkid' not in used:
+        # table constraints in the DDL: a primary key over one column, or over two (only the PAIR is unique then)
+        ids = list(range(nrows))
+        rng.shuffle(ids)
+        cols.append({'name': 'pkid', 'kind': 'int64', 'sqltype': 'integer', 'values': ids, 'nulls': 'none'})
+        other = rng.choice(cols[:-1])['name']
+        spec['primary_key'] = rng.choice([['pkid'], [other, 'pkid'], ['pkid', other]])
+    return spec
 
 
 def q(name):
@@ -70,6 +84,8 @@ def build_db(spec, path=':memory:'):
     conn.create_function('regexp', 2, regex_matcher)
     cur = conn.cursor()
     decl = ', '.join('%s %s' % (q(c['name']), c['sqltype']) for c in spec['cols'])
+    if spec.get('primary_key'):
+        decl += ', PRIMARY KEY (%s)' % ', '.join(q(n) for n in spec['primary_key'])
     cur.execute('CREATE TABLE %s (%s)' % (spec['table'], decl))
     for i in range(spec['nrows']):
         row = [sql_value(c, c['values'][i]) for c in spec['cols']]
